@@ -14,7 +14,8 @@ Spec
            "enter": "ok|raise|finish", "fin": value-at-enter-finish,
            "ys": [tock yielded after step 1, 2, ...] (last one repeats; [] -> own tock),
            "end": None | [k, "return", value] | [k, "raise", "ValueError"|"KeyboardInterrupt"],
-           "acts": {"<k>": [["extend"|"remove", sched_id, [ids], propagate?], ...]}}
+           "acts": {"<k>" | "cease" | "exit": [["extend"|"remove", sched_id, [ids], propagate?], ...]}}
+           (acts keyed "cease"/"exit" run inside the doer's own cease/exit hook, e.g. a doer detaching a helper on exit)
   group = {"id": "G1", "kind": "dodoer", "tock": f, "always": bool, "doers": [node...]}
 Trace events: (kind, id, tyme, info) with kinds
   enter recur clean cease abort exit            (leaves)
@@ -172,12 +173,14 @@ class PDoer(doing.Doer):
 
     def cease(self):
         self._run.ev("cease", self._spec["id"], by_sched=self._run.sched_depth > 0)
+        self._run.do_acts(self._spec, "cease")
 
     def abort(self, ex):
         self._run.ev("abort", self._spec["id"], exc=type(ex).__name__)
 
     def exit(self):
         self._run.ev("exit", self._spec["id"])
+        self._run.do_acts(self._spec, "exit")
 
 
 class PReDoer(PDoer):
@@ -220,6 +223,7 @@ def make_genfunc(run, spec, method=False):
                     y = v
         except GeneratorExit:
             run.ev("cease", lid, by_sched=run.sched_depth > 0)
+            run.do_acts(spec, "cease")
         except BaseException as ex:
             # A function doer owns its lifecycle contexts.  hio's template (bareDo) catches Exception here;
             # this harness doer catches BaseException so that a KeyboardInterrupt landing in it still gets an
@@ -231,6 +235,7 @@ def make_genfunc(run, spec, method=False):
             run.ev("clean", lid)
         finally:
             run.ev("exit", lid)
+            run.do_acts(spec, "exit")
         return value
 
     if method:
